@@ -887,6 +887,8 @@ func main() {
 			estimatorStage(r, true)
 		case "DualContourShortcuts", "DualContourSDF":
 			dcShortcutStage(r, true)
+		case "MarchingCubesConj":
+			conjStage(r, true)
 		default:
 			csgStage(r, true)
 			dcStage(r, true)
@@ -918,6 +920,7 @@ func main() {
 	r.Isolate("dc", func() { dcStage(r, full) })
 	r.Isolate("estimator", func() { estimatorStage(r, full) })
 	r.Isolate("dc-shortcuts", func() { dcShortcutStage(r, full) })
+	r.Isolate("conj", func() { conjStage(r, full) })
 	r.Finish()
 }
 
